@@ -264,7 +264,10 @@ def check(prop, tier, args):
             checker_cmds.append(r2.cmd)
             undecided += r2.undecided
             k2 = {fkey(f) for f in r2.failures}
-            fails = [f for f in fails if fkey(f) in k2 or expected(f)]
+            k1 = {fkey(f) for f in fails}
+            # a function that ran out of resources in the first run may not have reported all its failing obligations there: for those
+            # functions the second run's failures count in full
+            fails = [f for f in fails if fkey(f) in k2 or expected(f)] + [f for f in r2.failures if f["fn"] in rlim and fkey(f) not in k1]
             rlim = set(r2.fn_rlimit)
             libfail = list(r2.library_failures)
             r1.fn_time.update(r2.fn_time)
